@@ -915,8 +915,80 @@ def run_crawl_case(case, part):
         part.violation('crawl/rows-left-unfinished', {'rows': unfinished[:3]}, replay)
 
 
-RUNNERS = {'inject': run_inject, 'http': run_http, 'web': run_web, 'ftp': run_ftp, 'robots': run_robots, 'scrape': run_scrape, 'crawl': run_crawl_case}
-GENERATORS = {'inject': inject_case, 'http': http_case, 'web': web_case, 'ftp': ftp_case, 'robots': robots_case, 'scrape': scrape_case, 'crawl': crawl_case}
+# ----------------------------------------------------------------------------------------------- FTP crawl
+FTP_BAD_REPLIES = [b'\xff\xfe not ftp\r\n', b'421 too many users\r\n', b'999 what\r\n', b'200-never ends\r\n', b'500 no\r\n', b'\r\n', b'2\r\n',
+                   b'530 not logged in\r\n', b'227 Entering Passive Mode (1,2,3)\r\n', b'213 abc\r\n', b'150 x\r\n226 y\r\n226 z\r\n',
+                   b'550 \xe9\xe8\r\n', b'226' + b'-x' * 40000 + b'\r\n']
+
+
+def ftpcrawl_case(rng):
+    '''The real application on ftp:// start URLs (files without a trailing slash - their type is probed in the parent's
+    listing first -, directories, globs) against a server that misbehaves at one command of some connections.'''
+    return {'entry': 'ftpcrawl',
+            'start': rng.sample(['/pub/file.bin', '/pub/', '/pub/sub', '/pub/*.bin', '/pub/sub/deep.txt', '/pub/missing', '/'], rng.choice([1, 2, 3])),
+            'at': rng.choice(['connect', 'USER', 'PASS', 'PWD', 'CWD', 'TYPE', 'PASV', 'LIST', 'RETR', 'SIZE', 'MLSD', 'REST', 'SYST']),
+            'act': rng.choice(['close', 'close', rng.choice(FTP_BAD_REPLIES), rng.choice(FTP_BAD_REPLIES)]),
+            'connections': rng.choice(['all', 'first', 'first-two', 'odd']), 'recursive': rng.random() < 0.5,
+            'options': [o for o in ['--continue', '--timestamping', '--preserve-permissions', '--no-remove-listing', '--retr-symlinks=off']
+                        if rng.random() < 0.2],
+            'mlsd': rng.random() < 0.3, 'concurrent': rng.choice([1, 1, 3])}
+
+
+def run_ftpcrawl(case, part):
+    from harness import servers, crawl, ftpserver
+    tree = {'/': ['pub/', 'top.txt'], '/top.txt': b'top', '/pub/': ['file.bin', 'other.bin', 'sub/'], '/pub/file.bin': b'\x00\x01' * 40,
+            '/pub/other.bin': b'o' * 10, '/pub/sub/': ['deep.txt'], '/pub/sub/deep.txt': b'deep'}
+    conn_of = {}
+    import threading
+
+    def affected(index):
+        return {'all': True, 'first': index == 0, 'first-two': index < 2, 'odd': index % 2 == 1}[case['connections']]
+
+    def on_connect(index):
+        conn_of[threading.get_ident()] = index
+        if case['at'] == 'connect' and affected(index):
+            return case['act']
+
+    def on_command(entry):
+        if entry['cmd'] == case['at'] and affected(conn_of.get(threading.get_ident(), 0)):
+            return case['act']
+    addrs, port = servers.allocate_addresses(1, port=21)
+    srv = ftpserver.FTPServer(tree, addrs[0], 21, mlsd=case['mlsd'], on_command=on_command, on_connect=on_connect).start()
+    tmp = tempfile.mkdtemp(prefix='vc09f')
+    import logging
+    logging.disable(logging.NOTSET)
+    try:
+        db = os.path.join(tmp, 'crawl.db')
+        argv = ['ftp://f.test' + p for p in case['start']] + ['--database', db, '-P', tmp, '--waitretry', '0', '--tries', '2', '--timeout', '2',
+                                                               '--no-robots', '--concurrent', str(case['concurrent']), '--quiet'] + case['options']
+        if case['recursive']:
+            argv += ['-r', '--level', '3']
+        res = crawl.run_app(argv, {'f.test': addrs[0]})
+        rows = crawl.read_table(db) if os.path.exists(db) else []
+    finally:
+        logging.disable(logging.CRITICAL)
+        srv.stop()
+        shutil.rmtree(tmp, ignore_errors=True)
+    part.count('ftp_crawls')
+    part.count('ftp_crawl_fault_at_' + case['at'])
+    replay = case
+    unfinished = [r for r in rows if r['status'] in ('todo', 'in_progress')]
+    if res['crashed'] or res['exit_status'] in (None, 1):
+        last = re.findall(r'\n(\w+(?:\.\w+)*(?:Error|Exception)):', res['log'])
+        files = re.findall(r'File "[^"]*/wpull/([^"]+)", line \d+, in (\w+)', res['log'])
+        part.violation('ftpcrawl/{}/{}'.format(last[-1] if last else (res['exception'] or 'exit-1').split(':')[0], '{}:{}'.format(*files[-1]) if files else 'unknown'),
+                       {'exit': res['exit_status'], 'exception': res['exception'], 'log': res['log'][-900:], 'at': case['at']}, replay)
+    elif unfinished:
+        # the crawl ended although URLs were still to be visited: an error left the per-URL handling
+        last = re.findall(r'(\w+(?:Error|Exception)): ([^\n]{0,60})', res['log'])
+        part.violation('ftpcrawl/ended-early/{}/fault-at-{}'.format(last[-1][0] if last else 'exit-%s' % res['exit_status'], case['at']),
+                       {'exit': res['exit_status'], 'log': res['log'][-500:], 'unfinished': unfinished[:3]}, replay)
+    else:
+        part.count('ftp_crawl_completed')
+
+
+RUNNERS = {'ftpcrawl': run_ftpcrawl, 'inject': run_inject, 'http': run_http, 'web': run_web, 'ftp': run_ftp, 'robots': run_robots, 'scrape': run_scrape, 'crawl': run_crawl_case}
+GENERATORS = {'ftpcrawl': ftpcrawl_case, 'inject': inject_case, 'http': http_case, 'web': web_case, 'ftp': ftp_case, 'robots': robots_case, 'scrape': scrape_case, 'crawl': crawl_case}
 
 
 def worker(job):
@@ -973,7 +1045,7 @@ def main():
         mult = (60 if check.thorough else 2) * check.scale
         nj = check.jobs * (4 if check.thorough else 1)
         plan = {'inject': int(1600 * mult) // nj, 'http': int(4000 * mult) // nj, 'web': int(1600 * mult) // nj, 'ftp': int(2400 * mult) // nj,
-                'robots': int(800 * mult) // nj, 'scrape': int(4000 * mult) // nj, 'crawl': max(1, int(192 * mult) // nj)}
+                'robots': int(800 * mult) // nj, 'scrape': int(4000 * mult) // nj, 'crawl': max(1, int(192 * mult) // nj), 'ftpcrawl': max(1, int(192 * mult) // nj)}
         n_battery = (len(listing_battery()) + 5) // 6
         per_job = min(plan['ftp'], (n_battery + nj - 1) // nj)
         jobs = [{'seed': check.seed * 1000003 + i, 'plan': plan, 'battery_per_job': per_job, 'battery_offset': i * per_job}
